@@ -60,8 +60,11 @@ def gen_typing(r, mixed=False):
 
 
 def gen_leaf(r, ty, conflict):
-    if r.random() < .22:
+    m = r.random()
+    if m < .20:
         return ('C', dy(r, True))
+    if m < .30:        # a variable-free BQM of either vartype (a constant / accumulator), as left or right operand
+        return ('E', r.choice('SB'), dy(r, True) if r.random() < .6 else F(0), r.randrange(4))
     l = r.choice(LABELS if r.random() < .5 else LABELS[:3])
     k, lb, ub = ty[l]
     if conflict and r.random() < .5:
@@ -116,7 +119,7 @@ def gen(r, depth, ty, conflict, linear=False):
 
 def subtrees(t, out):
     """post order, children first"""
-    for c in (() if t[0] in 'VC' else t[1:]):
+    for c in (() if t[0] in 'VCE' else t[1:]):
         if isinstance(c, tuple) and c and isinstance(c[0], str) and c[0].isupper():
             subtrees(c, out)
     out.append(t)
@@ -130,6 +133,8 @@ def line_of(t):
         return f"V {k} {lab(l)} {rat(b)} {'-' if lb is None else rat(lb)} {'-' if ub is None else rat(ub)}"
     if op == 'C':
         return f'C {rat(t[1])}'
+    if op == 'E':
+        return f'E {t[1]} {rat(t[2])}'
     if op in ('DIV', 'IDIV', 'POW'):
         return f'{op} {rat(t[1])} {line_of(t[2])}'
     return ' '.join([op] + [line_of(c) for c in t[1:]])
@@ -261,6 +266,21 @@ class Evaluator:
                 return make_leaf(self.r, t, self.dtypes, self.keep)
             except (TypeError, ValueError) as e:
                 raise Raised(ERRS[type(e)], e)
+        if op == 'E':
+            _, k, off, how = t
+            vt = 'SPIN' if k == 'S' else 'BINARY'
+            if how == 0:
+                e = BQM(vt)
+                e.offset = float(off)
+            elif how == 1:
+                e = BQM({}, {}, float(off), vt)
+            elif how == 2:
+                e = BQM.empty(vt)
+                e += float(off)
+            else:              # a model whose only variable was fixed
+                e = BQM({'gone': 1.0}, {}, float(off) - 1.0, vt)
+                e.fix_variable('gone', 1)
+            return e
         if op == 'C':
             q = t[1]
             return int(q) if q.denominator == 1 and self.r.random() < .7 else (np.float64(float(q)) if self.r.random() < .2 else float(q))
@@ -338,6 +358,8 @@ def tree_eval(t, x):
         return t[3] * x[t[2]]
     if op == 'C':
         return t[1]
+    if op == 'E':
+        return t[2]
     if op == 'Q0':
         return F(0)
     if op in ('DIV', 'IDIV'):
@@ -359,6 +381,8 @@ def tree_eval(t, x):
 def leaves(t, out):
     if t[0] == 'V':
         out.append(t)
+    elif t[0] in 'CE':
+        pass
     else:
         for c in t[1:]:
             if isinstance(c, tuple):
@@ -391,6 +415,8 @@ def pyexpr(t):
         return f'dimod.{name}({l!r}, {float(b)!r}{kw})'
     if op == 'C':
         return repr(int(t[1]) if t[1].denominator == 1 else float(t[1]))
+    if op == 'E':
+        return f"dimod.BQM({{}}, {{}}, {float(t[2])!r}, {'SPIN' if t[1] == 'S' else 'BINARY'!r})"
     if op in ('DIV', 'IDIV', 'POW'):
         q = int(t[1]) if F(t[1]).denominator == 1 else float(t[1])
         return {'DIV': f'({pyexpr(t[2])} / {q!r})', 'POW': f'({pyexpr(t[2])} ** {q!r})', 'IDIV': f'idiv({pyexpr(t[2])}, {q!r})'}[op]
@@ -453,7 +479,7 @@ def check_node(ctx, t, ev, site_of):
     doms = []
     for l in labels:
         k, lb, ub = sorted(ty[l], key=repr)[0]
-        if l in info:
+        if l in info and len(ty[l]) != 1:       # leaves disagree: take what the result says
             k = info[l][0]
             lb, ub = info[l][1], info[l][2]
         doms.append(domain(k, lb, ub))
@@ -535,7 +561,7 @@ def run(ctx):
             continue
 
         def site_of(node):
-            return {'V': 'constructor', 'C': 'number'}.get(node[0], 'operator ' + node[0])
+            return {'V': 'constructor', 'C': 'number', 'E': 'variable-free BQM'}.get(node[0], 'operator ' + node[0])
 
         if ev.opfail is not None:
             node, i, b, a = ev.opfail
@@ -553,7 +579,7 @@ def run(ctx):
             expect.append('ok ' + ev.res[id(node)][2] if kind == 'ok' else 'err ' + o)
             meta.append((site_of(node), pyexpr(node)))
             ctx.tick(node[0] + ('' if kind == 'ok' else ':' + o))
-            ctx.case(ln, nontrivial=node[0] not in 'VC', sample=dict(expr=pyexpr(node)) if node is t and 2 < len(ln) < 400 else None)
+            ctx.case(ln, nontrivial=node[0] not in 'VCE', sample=dict(expr=pyexpr(node)) if node is t and 2 < len(ln) < 400 else None)
             if kind == 'ok':
                 if mixed and (is_model(o) or is_view(o)):
                     co = ev.res[id(node)][3]
@@ -565,8 +591,6 @@ def run(ctx):
                 if not check_node(ctx, node, ev, site_of):
                     nprop += 1
                     break
-            elif node[0] not in 'VC':
-                pass
             # conflicting operands must be rejected
             if node[0] in BIN2 + ('Q3',) and kind == 'ok':
                 bad = conflict_labels(ev, node)
